@@ -897,6 +897,9 @@ func replayMachine(args []string) (any, error) {
 				}
 			}
 		}
+		// the load and run below must not depend on what the process parsed / checked before (see plat.go)
+		disturbParser()
+		disturbChecker()
 		base := runOnce(ps, 0, budget)
 		if base.panicV != "" {
 			miss("panic", map[string]any{"panic": base.panicV})
